@@ -384,14 +384,28 @@ func (n *Nodis) blockingPop(timeout time.Duration, pop func(key string, count in
 		defer timer.Stop()
 		expired = timer.C
 	}
-	for {
+	// one look at the keys, in argument order. Like every other command of a client it is served
+	// under the shared side of execMu, so that it cannot take effect in the middle of another
+	// client's EXEC; the wait in between is not. A negative timeout is the form used inside EXEC,
+	// which already holds execMu exclusively.
+	look := func() (string, []byte, bool) {
+		if timeout >= 0 {
+			n.store.execMu.RLock()
+			defer n.store.execMu.RUnlock()
+		}
 		for _, key := range keys {
 			verifPoint("bpop.beforePop")
 			results := pop(key, 1)
 			verifTrace("bp-try", c, key, nil, len(results) > 0)
 			if len(results) > 0 {
-				return key, results[0]
+				return key, results[0], true
 			}
+		}
+		return "", nil, false
+	}
+	for {
+		if key, v, ok := look(); ok {
+			return key, v
 		}
 		if timeout < 0 {
 			return "", nil
